@@ -5,7 +5,7 @@
    every run); number display rests on the strconv models of Num/Decimal.v. *)
 From Coq Require Import List ZArith NArith Bool.
 From YS Require Import Base.Sexp Num.F64 Yarn.Ast Yarn.Value Yarn.Eval Markup.LineParser Yarn.Runner
-     Syntax.TextLine Proofs.TextLineProofs Proofs.RenderProofs.
+     Syntax.TextLine Syntax.TextLineWire Proofs.TextLineProofs Proofs.RenderProofs Proofs.LiteralProofs.
 Import ListNotations.
 Local Open Scope N_scope.
 
@@ -31,6 +31,39 @@ Print Assumptions C04_comment_removed.
 Theorem C04_optional_escape : forall c rest_ acc, (c =? 62) || (c =? 125) = true ->
   lex_text (92 :: c :: rest_) acc = lex_text (c :: rest_) acc.
 Proof. exact optional_escape_same. Qed.
+
+(* end to end for literal text (lexer transcription, then the markup phase): a line written as any
+   sequence of characters - each escapable one with or without its backslash, '<' and '/' single, ']'
+   plain, brackets escaped - is returned with every escape resolved, trimmed; with hashtags the tags
+   are returned in order; a comment never appears.  Excluded: an escaped bracket as the very first
+   character (finding D21) and an escaped backslash directly before a plain ']' (finding D27). *)
+Theorem C04_literal_text_resolved : forall t ts,
+  first_ok t = true -> lex_ok None (t :: ts) = true -> mk_ok (t :: ts) = true ->
+  literal_pipeline (write (t :: ts)) = Some (trim_space (meaning (t :: ts)), []).
+Proof. exact literal_text_resolved. Qed.
+Print Assumptions C04_literal_text_resolved.
+
+Theorem C04_literal_text_resolved_tags : forall t ts t0 tags,
+  first_ok t = true -> lex_ok (Some 35) (t :: ts) = true -> mk_ok (t :: ts) = true ->
+  good_tag t0 -> Forall good_tag tags ->
+  literal_pipeline (write (t :: ts) ++ 35 :: t0 ++ render_tags tags)
+    = Some (trim_space (meaning (t :: ts)), t0 :: tags).
+Proof. exact literal_text_resolved_tags. Qed.
+
+Theorem C04_literal_text_resolved_comment : forall t ts cm,
+  first_ok t = true -> lex_ok (Some 47) (t :: ts) = true -> mk_ok (t :: ts) = true ->
+  literal_pipeline (write (t :: ts) ++ 47 :: 47 :: cm) = Some (trim_space (meaning (t :: ts)), []).
+Proof. exact literal_text_resolved_comment. Qed.
+
+(* known finding D27: the excluded shape really fails - the source a\\]b means a\]b, the runner
+   returns a]b (the lexer resolves the escaped backslash, the markup phase resolves it again) *)
+Theorem C04_escaped_backslash_before_bracket_refuted :
+  let ts := [TChar 97; TEsc 92; TChar 93; TChar 98] in
+  first_ok (TChar 97) = true /\ lex_ok None ts = true /\ mk_ok ts = false /\
+  meaning ts = [97; 92; 93; 98] /\
+  literal_pipeline (write ts) = Some ([97; 93; 98], []).
+Proof. exact escaped_backslash_before_bracket_refuted. Qed.
+Print Assumptions C04_escaped_backslash_before_bracket_refuted.
 
 (* known finding D21: "\[" is text inside a line and a syntax error at its start *)
 Theorem C04_first_char_bracket_refuted :
